@@ -5,6 +5,7 @@ import (
 	"fmt"
 	"slices"
 
+	"github.com/berquerant/crd/astconv"
 	"github.com/berquerant/crd/desc"
 	"github.com/berquerant/crd/errorx"
 	"github.com/berquerant/crd/note"
@@ -131,6 +132,10 @@ crd info chord describe -t "Caug" -s`,
 		targetBuf := bytes.NewBufferString(target)
 		tree, err := parseTextOneChordSymbol(targetBuf)
 		if err != nil {
+			return err
+		}
+		// letters and numbers are not mixed, in the bass either (C/3)
+		if _, err := astconv.NewASTClassifier().Classify(tree); err != nil {
 			return err
 		}
 
